@@ -115,6 +115,24 @@ func (e *Enc) cellEnv(f *frame, pos token.Pos, st *State) *Env {
 		if a == nil && len(byName[name]) == 1 {
 			a = byName[name][0]
 		}
+		// rangeindexN: the hidden index of the N-th range-over-slice loop (in
+		// source order); at the loop head it is the index of the iteration
+		// just finished (-1 before the first).
+		if a == nil && strings.HasPrefix(name, "rangeindex") {
+			if n, err := strconv.Atoi(strings.TrimPrefix(name, "rangeindex")); err == nil {
+				k := 0
+				for _, b := range f.fn.Blocks {
+					for _, in := range b.Instrs {
+						if c, ok := in.(*ssa.Alloc); ok && c.Comment == "rangeindex" {
+							if k == n {
+								a = c
+							}
+							k++
+						}
+					}
+				}
+			}
+		}
 		if a == nil {
 			// free variables of closures
 			for i, fv := range f.fn.FreeVars {
@@ -266,6 +284,13 @@ func (e *Enc) enterLoop(f *frame, li *loopInfo, order []*ssa.BasicBlock) {
 		for _, inv := range lc.Invariants {
 			e.assume(e.evalBool(env, inv))
 		}
+		for _, sp := range lc.Splits {
+			n := len(e.splitConds)
+			e.noteSplit(e.def("c", e.evalBool(env, sp)))
+			if len(e.splitConds) > n {
+				e.splitConds[n].hint = true
+			}
+		}
 		if lc.Decreases != nil {
 			env.where = "decreases"
 			m := e.asInt(env, e.evalClauseVal(env, *lc.Decreases))
@@ -288,6 +313,7 @@ func (e *Enc) enterLoop(f *frame, li *loopInfo, order []*ssa.BasicBlock) {
 		if e.dry == 0 {
 			e.cover(label+".cover.body", tTrue)
 		}
+		li.headSt = e.cur.clone()
 	}
 }
 
@@ -330,6 +356,7 @@ func (e *Enc) backEdge(f *frame, li *loopInfo, from *ssa.BasicBlock) {
 			e.obls[n0].ClauseText = inv.Text
 		}
 	}
+	env.head = li.headSt
 	for _, st := range lc.Steps {
 		n0 := len(e.obls)
 		e.oblige("loop", label+".step."+st.Label+suffix, e.evalBool(env, st), li.pos)
@@ -376,6 +403,12 @@ func (e *Enc) dryRun(f *frame, li *loopInfo, order []*ssa.BasicBlock, onlyC map[
 
 	e.dry++
 	e.loopDry++
+	// facts about opaque spec terms emitted during the dry run are dropped with
+	// its lines: they must be emitted again when the term is met for real
+	savedFacts := make(map[string]bool, len(e.factsDone))
+	for k, v := range e.factsDone {
+		savedFacts[k] = v
+	}
 	npairs := len(e.seqPairs)
 	nterms := len(e.seqTerms)
 	e.writesC, e.writesV = map[*ssa.Alloc]bool{}, map[string]bool{}
@@ -425,6 +458,7 @@ func (e *Enc) dryRun(f *frame, li *loopInfo, order []*ssa.BasicBlock, onlyC map[
 	e.seqPairs = e.seqPairs[:npairs]
 	e.seqTerms = e.seqTerms[:nterms]
 	e.lines = e.lines[:nlines]
+	e.factsDone = savedFacts
 	e.cur, e.reach = savedCur, savedReach
 	f.ins = savedIns
 	f.rets, f.defers = f.rets[:savedRets], f.defers[:savedDefers]
@@ -461,4 +495,99 @@ func copyCounts(m map[string]int) map[string]int {
 		n[k] = v
 	}
 	return n
+}
+
+// unrollLoop executes a loop whose trip count is a small constant ("loop k
+// unroll n") n+1 times instead of cutting it with an invariant: n full
+// iterations and one more evaluation of the loop head, which must leave the
+// loop. The unwinding obligation <loop>.unwind states that no back edge is
+// taken in that last round, so the result is complete, not bounded. Call-site
+// and safety ordinals are those of one iteration (the k-th call site keeps
+// its name in every round; repeated obligation names get a ~n suffix).
+func (e *Enc) unrollLoop(f *frame, li *loopInfo, order []*ssa.BasicBlock, ins []edgeIn) {
+	label := fmt.Sprintf("%s/loop%d", e.frames[0].name, li.ordinal)
+	if f != e.frames[0] {
+		label = fmt.Sprintf("%s/%s.loop%d", e.frames[0].name, f.name, li.ordinal)
+	}
+	// a value computed inside the loop and used after it would be read from
+	// the last round instead of the round that left the loop
+	for b := range li.blocks {
+		for _, in := range b.Instrs {
+			v, ok := in.(ssa.Value)
+			if !ok {
+				continue
+			}
+			if _, isAlloc := in.(*ssa.Alloc); isAlloc {
+				continue
+			}
+			if refs := v.Referrers(); refs != nil {
+				for _, r := range *refs {
+					if !li.blocks[r.Block()] {
+						e.errs = append(e.errs, fmt.Sprintf("%s: cannot unroll: %s is computed in the loop and used after it", label, v.Name()))
+						return
+					}
+				}
+			}
+		}
+	}
+	n := li.contract.Unroll
+	top := e.frames[0]
+	calls0, safety0, all0 := copyCounts(top.ncall), copyCounts(top.nsafety), copyCounts(f.ncallAll)
+	var calls1, safety1, all1 map[string]int
+	li.unrolling = true
+	cur := ins
+	for round := 0; round <= n && len(cur) > 0; round++ {
+		f.ins[li.head] = cur
+		li.collect = nil
+		top.ncall, top.nsafety, f.ncallAll = copyCounts(calls0), copyCounts(safety0), copyCounts(all0)
+		li.round = round
+		e.runBlocks(f, order, li.blocks)
+		if round == 0 {
+			calls1, safety1, all1 = copyCounts(top.ncall), copyCounts(top.nsafety), copyCounts(f.ncallAll)
+		}
+		cur = li.collect
+	}
+	li.unrolling = false
+	li.collect = nil
+	if calls1 != nil {
+		top.ncall, top.nsafety, f.ncallAll = calls1, safety1, all1
+	}
+	var conds []T
+	for _, in := range cur {
+		conds = append(conds, in.cond)
+	}
+	saved := e.reach
+	e.reach = tTrue
+	goal := tTrue
+	if len(conds) > 0 {
+		goal = not(or(conds...))
+	}
+	e.oblige("loop", label+".unwind", goal, li.pos)
+	e.reach = saved
+	e.unrolled = append(e.unrolled, fmt.Sprintf("%s (%d iterations, unwinding assertion %s.unwind)", label, n, label))
+}
+
+// unrollHead: the invariants of an unrolled loop are checked at the head of
+// every round and then used (stepping stones: each follows from the one of the
+// round before and one execution of the body).
+func (e *Enc) unrollHead(f *frame, li *loopInfo) {
+	lc := li.contract
+	if lc == nil || len(lc.Invariants) == 0 {
+		return
+	}
+	label := fmt.Sprintf("%s/loop%d", e.frames[0].name, li.ordinal)
+	if f != e.frames[0] {
+		label = fmt.Sprintf("%s/%s.loop%d", e.frames[0].name, f.name, li.ordinal)
+	}
+	env := e.cellEnv(f, li.pos, e.cur.clone())
+	for _, inv := range lc.Invariants {
+		g := e.evalBool(env, inv)
+		n := len(e.obls)
+		e.oblige("loop", fmt.Sprintf("%s.round%d.%s", label, li.round, inv.Label), g, li.pos)
+		if len(e.obls) > n {
+			e.obls[n].Env = env
+			e.obls[n].ClauseText = inv.Text
+		}
+		e.assume(g)
+	}
 }
